@@ -154,6 +154,7 @@ var props = map[string]*prop{
 		level: "fault_enumeration", exhaustive: true,
 		jobs: []job{
 			regress,
+			{name: "concurrent", run: "^TestC06_Concurrent$", weight: 8},
 			{name: "grid", run: "^TestC06_Grid$", shards: [2]int{2, 8}},
 			{name: "random", run: "^TestC06_Random$", shards: [2]int{2, 16}, checks: [2]int{10000, 200000}},
 			{name: "fuzz", fuzz: "FuzzC06", thoroughOnly: true, fuzzTime: [2]time.Duration{0, 60 * time.Second}, weight: 16},
